@@ -146,6 +146,9 @@ Proof.
     destruct args as [|o [|f [|? ?]]]; try apply pn_refl.
     destruct (is_func f 2); [|apply pn_refl]. destruct o; try apply pn_refl.
     apply pn_bind; [apply merge_app_pn|intros; apply pn_refl].
+  - (* visit *)
+    destruct args as [|i [|f [|? ?]]]; try apply pn_refl. destruct (is_func f 2); [|apply pn_refl].
+    apply fold_app_pn.
 Qed.
 
 Lemma run_method_pn rv m args : pn_res (run_method app1 rv m args) (run_method app2 rv m args).
